@@ -237,6 +237,13 @@ Section Proofs.
     destruct (handle_call_single_reply c id a p Hok Htot) as [r [_ [_ H]]]. exact H.
   Qed.
 
+  Lemma combine_app_eq {A B} (l1 l2 : list A) (r1 r2 : list B) :
+    List.length l1 = List.length r1 -> combine (l1 ++ l2) (r1 ++ r2) = combine l1 r1 ++ combine l2 r2.
+  Proof.
+    revert r1. induction l1 as [|x l1 IH]; intros [|y r1] H; simpl in *; try discriminate; [reflexivity|].
+    f_equal. apply IH. congruence.
+  Qed.
+
   (* ---------- start(): in order, one at a time, ends only with recv ---------- *)
   Theorem start_in_order c frames :
     cfg_ok c -> handlers_total c ->
@@ -251,6 +258,28 @@ Section Proofs.
       rewrite (route_message_no_escape c f Hok Htot). rewrite IH.
       replace (S i + List.length r) with (i + S (List.length r)) by lia.
       cbn [app]. rewrite <- !app_assoc. reflexivity.
+  Qed.
+
+  (* every frame of a sequence: taken with its own receive and followed by exactly the events that frame gives
+     alone, whatever the frames before it were *)
+  Theorem start_contains_frame c frames i f :
+    cfg_ok c -> handlers_total c -> nth_error frames i = Some f ->
+    exists pre post,
+      start tbl acts c frames = pre ++ (LRecv i :: map LEv (route_message tbl acts c f)) ++ post.
+  Proof.
+    intros Hok Htot Hn.
+    destruct (nth_error_split frames i Hn) as [l1 [l2 [-> Hl]]].
+    unfold start. rewrite (start_in_order c _ Hok Htot 0).
+    rewrite app_length. cbn [List.length]. rewrite seq_app.
+    rewrite combine_app_eq by (rewrite seq_length; reflexivity).
+    rewrite Nat.add_0_l, Hl.
+    change (seq i (S (List.length l2))) with (i :: seq (S i) (List.length l2)).
+    cbn [combine]. rewrite flat_map_app. cbn [flat_map fst snd].
+    exists (flat_map (fun p => LRecv (fst p) :: map LEv (route_message tbl acts c (snd p))) (combine (seq 0 i) l1)).
+    exists (flat_map (fun p => LRecv (fst p) :: map LEv (route_message tbl acts c (snd p)))
+                     (combine (seq (S i) (List.length l2)) l2)
+            ++ [LRecv (i + S (List.length l2)); LEnd true]).
+    rewrite <- app_assoc. f_equal. rewrite <- app_assoc. reflexivity.
   Qed.
 
   (* ---------- C05: what reaches a handler, and how violations are answered ---------- *)
